@@ -42,6 +42,8 @@ type c03Run struct {
 	Clock2   bool       `json:"clock2"`
 	Capacity int        `json:"capacity"`
 	MaxExtra uint64     `json:"maxExtra"`
+	WarmCell int        `json:"warmCell"` // model value of a warm counter's persisted value (1 = plain)
+	MaxCell  int        `json:"maxCell"`
 	Schedule []string   `json:"schedule"`
 	Finish   string     `json:"finish"` // "rr" | "random" | "seq"
 	Seed     int64      `json:"seed"`
@@ -183,6 +185,15 @@ func modelWord(bits uint64, maxExtra uint64) int {
 	return r + 8*hp + 16*int(ex)
 }
 
+// modelCell maps a persisted value to the model's range: values near 2^64-1
+// are measured from the top (MaxCell is the saturation limit).
+func (w *c03World) modelCell(v uint64) int {
+	if v >= 1<<63 {
+		return w.run.MaxCell - int(^uint64(0)-v)
+	}
+	return int(v)
+}
+
 func (w *c03World) project() rt.M {
 	st, ptr, nxt := rt.M{}, rt.M{}, rt.M{}
 	cell1, cell2 := rt.M{}, rt.M{}
@@ -209,8 +220,8 @@ func (w *c03World) project() rt.M {
 		st[n] = modelWord(c.state.bits.Raw(), w.run.MaxExtra)
 		ptr[n] = w.regionOf(unsafe.Pointer(c.ptr.count))
 		nxt[n] = nameOf(c.next.Raw())
-		cell1[n] = int(fdec[0][c.name])
-		cell2[n] = int(fdec[1][c.name])
+		cell1[n] = w.modelCell(fdec[0][c.name])
+		cell2[n] = w.modelCell(fdec[1][c.name])
 	}
 	var open []int
 	for _, r := range w.regions {
@@ -307,6 +318,11 @@ func c03Setup(t *testing.T, run *c03Run) *c03World {
 		for _, n := range run.Warm {
 			w.ctrs[n].Add(1)
 			w.begun[n] = 1
+			if run.WarmCell > 1 {
+				// preset the persisted value just below its saturation limit
+				w.ctrs[n].ptr.count.Store(^uint64(0) - uint64(run.MaxCell-run.WarmCell))
+				w.begun[n] = run.WarmCell
+			}
 		}
 		if len(w.regions) != 1 {
 			t.Fatalf("setup: %d mappings after warm-up", len(w.regions))
